@@ -28,7 +28,8 @@ CONSTANTS NObjMax,      \* max number of geometry objects
           NFree,        \* number of off-ground point ids
           NGnd,         \* number of on-ground point ids
           HasGround,    \* BOOLEAN: a ground plane exists (media # None)
-          MaxTag        \* explicit tags are drawn from 1..MaxTag (0 = automatic)
+          MaxTag,       \* explicit tags are drawn from 1..MaxTag (0 = automatic)
+          MaxCurves     \* number of curve objects (arc-like: kind "A") allowed; the rest are wires "W"
 
 FreePts == 1..NFree
 GndPts  == IF HasGround THEN (101..(100+NGnd)) ELSE {}
@@ -68,14 +69,19 @@ Init ==
   /\ endSegs = <<>>
   /\ input = <<>>
 
+\* kind "W": straight wire (both ends grounded is an error, the ends differ);
+\* kind "A": arc-like curve of at least three segments: both ends may lie on the ground plane and
+\*           the curve may close on itself (first end = last end, off the ground)
+NCurves(os) == Cardinality({k \in 1..Len(os) : os[k].kind = "A"})
 AddObj ==
   /\ stage = "build"
   /\ Len(objs) < NObjMax
-  /\ \E a \in Candidates(objs) :
-       LET os1 == Append(objs, [p1 |-> a, p2 |-> a, ns |-> 1, tag |-> 0])
+  /\ \E a \in Candidates(objs) : \E kd \in {"W", "A"} :
+       LET os1 == Append(objs, [p1 |-> a, p2 |-> a, ns |-> 1, tag |-> 0, kind |-> kd])
        IN \E b \in Candidates(os1) : \E ns \in 1..MaxSeg : \E tg \in 0..MaxTag :
-            /\ a # b                          \* a wire of zero length is rejected earlier
-            /\ objs' = Append(objs, [p1 |-> a, p2 |-> b, ns |-> ns, tag |-> tg])
+            /\ (kd = "W" => a # b)           \* a wire of zero length is rejected earlier
+            /\ (kd = "A" => ns >= 3 /\ NCurves(objs) < MaxCurves /\ (a = b => ~IsGnd(a)))
+            /\ objs' = Append(objs, [p1 |-> a, p2 |-> b, ns |-> ns, tag |-> tg, kind |-> kd])
   /\ UNCHANGED <<stage, i, endDict, conn, sgnBy, pulses, endSegs, input>>
 
 Finish ==
@@ -98,7 +104,7 @@ AutoTagged(os) ==
 SortByTag(os) == SortSeq(os, LAMBDA a, b : a.tag < b.tag)
 
 \* Wire.compute_ground: a wire with both ends on the ground plane is rejected
-BothGrounded(os) == \E k \in 1..Len(os) : IsGnd(os[k].p1) /\ IsGnd(os[k].p2)
+BothGrounded(os) == \E k \in 1..Len(os) : os[k].kind = "W" /\ IsGnd(os[k].p1) /\ IsGnd(os[k].p2)
 
 Tags ==
   /\ stage = "tags"
@@ -125,7 +131,11 @@ MatchEnd(o, e, st) ==
        ELSE LET n2 == st.d[p][1]            \* always the FIRST object at the point
                 ot == st.d[p][2]
                 s  == IF n2 = e THEN -1 ELSE 1           \* Geobj._add_conn
-            IN [st EXCEPT
+            IN IF \E k \in 1..Len(st.c[ot][n2+1]) : st.c[ot][n2+1][k].geo = o
+               THEN [st EXCEPT !.bad = TRUE]   \* Connected_Geobj.add: "assert geobj not in self.geo" -- a curve
+                                               \* closing on a point where an EARLIER object ends (named deviation:
+                                               \* the code stops with an AssertionError, see known findings)
+               ELSE [st EXCEPT
                  !.c[ot][n2+1] = Append(@, [geo |-> o,  ow |-> o, idx |-> e, s |-> s]),
                  !.g[ot][n2+1] = @ \cup {<<o, s>>},
                  !.c[o][e+1]   = Append(@, [geo |-> ot, ow |-> o, idx |-> e, s |-> 1]),
@@ -181,23 +191,28 @@ PulsesOf(o, st, base) ==
 Connect ==
   /\ stage = "conn"
   /\ i <= Len(objs)
-  /\ LET st0 == [d |-> endDict, c |-> conn, g |-> sgnBy]
+  /\ LET st0 == [d |-> endDict, c |-> conn, g |-> sgnBy, bad |-> FALSE]
          st1 == MatchEnd(i, 0, st0)
-         st2 == MatchEnd(i, 1, st1)
+         st2 == IF st1.bad THEN st1 ELSE MatchEnd(i, 1, st1)
          ns  == objs[i].ns
          i1  == Idx(i, 0, st2)
          i2  == Idx(i, 1, st2)
          base == Len(pulses)
+         \* "If structure is connected to itself, deduct one from pulse count"
+         selfloop == st2.c[i][1] # <<>> /\ st2.c[i][1][1].geo = i
          npulse == ns - (IF i1 = 0 THEN 1 ELSE 0) - (IF i2 = 0 THEN 1 ELSE 0)
+                      - (IF selfloop THEN 1 ELSE 0)
          es0 == IF ns = 1 /\ i1 = 0 THEN -1 ELSE base
          es1 == IF ns = 1 /\ i2 = 0 THEN -1 ELSE base + npulse
-     IN /\ endDict' = st2.d
-        /\ conn' = st2.c
-        /\ sgnBy' = st2.g
-        /\ pulses' = pulses \o PulsesOf(i, st2, base)
-        /\ endSegs' = [endSegs EXCEPT ![i] = <<es0, es1>>]
-  /\ i' = i + 1
-  /\ stage' = IF i = Len(objs) THEN "done" ELSE "conn"
+     IN IF st2.bad
+        THEN /\ stage' = "assert" /\ UNCHANGED <<endDict, conn, sgnBy, pulses, endSegs, i>>
+        ELSE /\ endDict' = st2.d
+             /\ conn' = st2.c
+             /\ sgnBy' = st2.g
+             /\ pulses' = pulses \o PulsesOf(i, st2, base)
+             /\ endSegs' = [endSegs EXCEPT ![i] = <<es0, es1>>]
+             /\ i' = i + 1
+             /\ stage' = IF i = Len(objs) THEN "done" ELSE "conn"
   /\ UNCHANGED <<objs, input>>
 
 Next == AddObj \/ Finish \/ Tags \/ Connect
@@ -343,9 +358,9 @@ Through(o, e, q) ==
   IN IF ~atp THEN 0
      ELSE IF pu.kind = "J1" /\ pu.sb = endseg /\ pu.owner = o /\ e = 0 THEN 1
      ELSE IF pu.kind = "J2" /\ pu.sa = endseg /\ pu.owner = o /\ e = 1 THEN 1
-     ELSE IF pu.kind = "J1" /\ pu.sa = endseg /\ pu.sa[1] = o /\ pu.owner # o
+     ELSE IF pu.kind = "J1" /\ pu.sa = endseg /\ pu.sa[1] = o
                /\ e = (IF pu.sgn[1] > 0 THEN 1 ELSE 0) THEN pu.sgn[1]
-     ELSE IF pu.kind = "J2" /\ pu.sb = endseg /\ pu.sb[1] = o /\ pu.owner # o
+     ELSE IF pu.kind = "J2" /\ pu.sb = endseg /\ pu.sb[1] = o       \* (also the closing pulse of a self-closed curve)
                /\ e = (IF pu.sgn[2] > 0 THEN 0 ELSE 1) THEN pu.sgn[2]
      ELSE 0
 JunctionEndIsSum ==
@@ -364,5 +379,6 @@ DumpRec ==
    rows |-> [o \in 1..NO |-> NumberedRows(o)],
    opulses |-> [o \in 1..NO |-> ObjPulses(o)]]
 Dump == Done => PrintT(ToJson(DumpRec))
-RejectDump == (stage = "reject") => PrintT(ToJson([input |-> input, reject |-> TRUE]))
+RejectDump == (stage \in {"reject", "assert"}) =>
+                 PrintT(ToJson([input |-> input, reject |-> TRUE, assertion |-> (stage = "assert")]))
 =============================================================================
